@@ -149,6 +149,10 @@ def c_gmm(ctx, case):
     pa = sut.params_of(a)
     if not all(np.isfinite(x).all() for x in pa):
         ctx.discard("non-finite in-memory model (empty k-means cluster)")
+    spread2 = float(np.var(X, axis=0).max()) + 1e-300
+    if (pa[2] <= np.asarray(a.variance_thresholds) * (1 + 1e-6)).any() or (pa[2] < 1e-8 * spread2).any():
+        # a component collapsed onto (almost) a single point: responsibilities amplify rounding by 1/variance
+        ctx.discard("floor active / collapsed component (ill-conditioned)")
     if thr:
         for f in (1 - 1e-6, 1 + 1e-6):
             b = sut.params_of(gmm(case, thr * f).fit(X))
